@@ -542,10 +542,46 @@ def rule_view_limit_is_own_geometry(prog, fixture=False):
     return r
 
 
+# ---------------------------------------------------------------- R-C17-7
+def rule_every_volume_is_trimmed(prog, fixture=False):
+    r = RuleResult("R-C17-7", "the loop that derives each Opus volume's end from the start of the next one sets it for every "
+                   "volume it passes: the set_next_sector call is not under a condition (a volume left with its initial end "
+                   "would reach into the volumes behind it)", floor=0 if fixture else 1)
+    for fn in prog.functions.values():
+        for n in fn.walk():
+            if n.get("k") != "CXXMemberCallExpr" or (strip(n["c"][0]) or {}).get("n") != "set_next_sector":
+                continue
+            loop = None
+            for a in fn.ancestors(n):
+                if a.get("k") in ("ForStmt", "WhileStmt", "DoStmt", "CXXForRangeStmt"):
+                    loop = a
+                    break
+            if loop is None:
+                continue
+            body = loop["c"][loop["parts"]["body"]]
+            conds = [a for a in fn.ancestors(n) if any(y is a for y in walk(body)) and
+                     a.get("k") in ("IfStmt", "ConditionalOperator", "SwitchStmt") and a is not body]
+            skips = [x for x in walk(body) if x.get("k") in ("ContinueStmt", "BreakStmt")]
+            key = "%s::%s::set_next_sector" % (fn.relfile(), fn.qn)
+            ok = not conds and not skips
+            r.add(key, fn.loc(n), ok, "unconditional in the extent loop" if ok else
+                  "the end of a volume is only set under a condition (%s): a volume for which it fails keeps the end it was "
+                  "created with" % (fn.loc(conds[0]) if conds else fn.loc(skips[0])))
+    return r
+
+
 def run(ctx):
     prog = ctx.prog("dfs", "N")
     return [rule_bounds(prog), rule_body_read_failure(prog), rule_volume_extent(prog),
-            rule_window_consistency(prog), rule_view_limit_is_own_geometry(prog), _shared_slot_position(prog)]
+            rule_window_consistency(prog), rule_view_limit_is_own_geometry(prog), _shared_slot_position(prog),
+            rule_every_volume_is_trimmed(prog), _shared_probe_rule(prog)]
+
+
+def _shared_probe_rule(prog):
+    from . import c13
+    r = c13.rule_probe_ignores_bodies(prog)
+    r.rule = "R-C17-8"       # an Opus disc is not demoted to plain DFS (losing every volume window) because of a file body
+    return r
 
 
 def _shared_slot_position(prog):
